@@ -164,6 +164,63 @@ func checkC12(c *Ctx) {
 		if n == 0 {
 			c.undecided("C12-FLT", "SexpFloat.SexpString", "FormatFloat", f.Pos(), "the float printer no longer uses strconv.FormatFloat")
 		}
+		// the `.0` is appended only to finite whole values: decided on the text (no '.', 'e', 'I'nf, 'N'aN in it)
+		// or behind explicit IsInf / IsNaN tests
+		nApp := 0
+		eachInstr(f, func(b *ssa.BasicBlock, i int, in ssa.Instruction) {
+			bo, ok := in.(*ssa.BinOp)
+			if !ok || bo.Op != token.ADD {
+				return
+			}
+			k, ok := bo.Y.(*ssa.Const)
+			if !ok || k.Value == nil || k.Value.Kind() != constant.String || constant.StringVal(k.Value) != ".0" {
+				return
+			}
+			nApp++
+			byText := guardedBy(b, func(cond ssa.Value) (bool, bool) {
+				call, ok := cond.(*ssa.Call)
+				if !ok {
+					return false, false
+				}
+				g := call.Call.StaticCallee()
+				if g == nil || fnPkgPath(g) != "strings" || g.Name() != "ContainsAny" || len(call.Call.Args) != 2 {
+					return false, false
+				}
+				set, ok := call.Call.Args[1].(*ssa.Const)
+				if !ok || set.Value == nil || set.Value.Kind() != constant.String {
+					return false, false
+				}
+				chars := constant.StringVal(set.Value)
+				for _, need := range ".eIN" {
+					if !strings.ContainsRune(chars, need) {
+						return false, false
+					}
+				}
+				return true, false
+			})
+			notInf := guardedBy(b, func(cond ssa.Value) (bool, bool) {
+				call, ok := cond.(*ssa.Call)
+				if !ok {
+					return false, false
+				}
+				g := call.Call.StaticCallee()
+				return g != nil && fnPkgPath(g) == "math" && g.Name() == "IsInf", false
+			})
+			notNaN := guardedBy(b, func(cond ssa.Value) (bool, bool) {
+				call, ok := cond.(*ssa.Call)
+				if !ok {
+					return false, false
+				}
+				g := call.Call.StaticCallee()
+				return g != nil && fnPkgPath(g) == "math" && g.Name() == "IsNaN", false
+			})
+			c.check(byText || (notInf && notNaN), "C12-FLT", "SexpFloat.SexpString", "fraction appended to finite whole values only", bo.Pos(),
+				"`.0` is appended only when the text has no '.', 'e', 'I' or 'N' (or behind IsInf/IsNaN tests)",
+				"`.0` can be appended to the text of an infinity or NaN: +Inf prints as +Inf.0, which reads back as the symbol + followed by the symbol Inf.0")
+		})
+		if nApp == 0 {
+			c.undecided("C12-FLT", "SexpFloat.SexpString", "fraction appended to finite whole values only", f.Pos(), "the place where a fraction is appended to whole values was not found")
+		}
 	}
 
 	// ---- C12-NUM
